@@ -49,6 +49,19 @@ func standardPhases(mons []string, suffix int, thorough bool) []Phase {
 		d0 = append(d0, s3Items(s, 0, nil, nil, mons, suffix)...)
 	}
 	add("S3 d=0 on 8 seeds", d0)
+	// S2: seed prefix + exhaustive window + fair suffix
+	w3 := "win:3:-1:" + scStatic3
+	wj := "win:4:-1:" + scJoin3
+	wl := "win:4:2:" + scLeave4
+	n3, n4 := len(sched.WindowAlphabet(3, -1)), len(sched.WindowAlphabet(4, -1))
+	if !thorough {
+		add("S2 static3, windows at seed positions 12,17,22, all sequences of length 2 over 12 actions", s2Items(w3, []int{12, 17, 22}, 2, n3, mons, suffix))
+		add("S2 join3to4, windows inside the activation window (positions 24,40), length 2 over 22 actions", s2Items(wj, []int{24, 40}, 2, n4, mons, suffix))
+	} else {
+		add("S2 static3, windows at 8,12,15,17,20,22,26,30, length 3 over 12 actions", s2Items(w3, []int{8, 12, 15, 17, 20, 22, 26, 30}, 3, n3, mons, suffix))
+		add("S2 join3to4, windows at 16,24,32,40,48,56, length 3 over 22 actions", s2Items(wj, []int{16, 24, 32, 40, 48, 56}, 3, n4, mons, suffix))
+		add("S2 leave4to3, windows at 12,24,36,48, length 3 over 23 actions (incl. a second leave)", s2Items(wl, []int{12, 24, 36, 48}, 3, n4+1, mons, suffix))
+	}
 	if !thorough {
 		add("S3 d<=1 static3 (every position, alphabet level 0)", s3Items(scStatic3, 1, seedPositions(scStatic3, 0, 0, 1), devAlphabet(nodesOf(3), 0, 0), mons, suffix))
 		add("S3 d<=1 join3to4 (every 3rd position, level 0)", s3Items(scJoin3, 1, seedPositions(scJoin3, 2, 0, 3), devAlphabet(nodesOf(4), 0, 0), mons, suffix))
